@@ -5,6 +5,7 @@ import Aldy.Driver.C18
 import Aldy.Driver.C19
 import Aldy.Driver.C11
 import Aldy.Driver.C10
+import Aldy.Driver.C12
 
 /-! Line-protocol driver: one JSON object per input line (`{"op": ..., ...}`), one JSON
 object per output line.  Errors are reported as `{"error": msg}`; the driver never guesses. -/
@@ -30,6 +31,7 @@ def dispatch (j : Json) : Except String Json := do
   | "diplotype" => opDiplotype j
   | "natkey" => opNatKey j
   | "select" => opSelect j
+  | "writers" => opWriters j
   | "ping" => pure (objJ [("pong", boolJ true)])
   | _ => .error s!"unknown op {op}"
 
